@@ -33,6 +33,10 @@ STD_AXIOMS = {'propext', 'Classical.choice', 'Quot.sound'}
 FORBIDDEN = re.compile(r'\b(sorry|admit|native_decide|bv_decide|implemented_by|unsafe)\b|^\s*axiom\s|maxHeartbeats\s+0\b')
 
 
+class StopCheck(Exception):
+    """enough violations have been found: finish the check now (raised by long-running failure modes such as non-terminating workers)"""
+
+
 class InfraError(Exception):
     """harness problem (not a verdict): exit status 2"""
 
